@@ -292,3 +292,42 @@ def inherit_orders(order: int, how: int) -> bool:
             FAIL.append(msg)
     tock("inherit_orders")
     return msg is None
+
+
+# ------------------------------------------------------------------------------------ further association forms
+_A = "module a\n integer :: x\n integer :: y\nend module a\n"
+_Q = "module q\n integer :: Zed\n integer :: low\n PRIVATE :: zed\n private :: LOW\n integer, public :: vis\nend module q\n"
+_R = "module r\n integer :: zed, low\ncontains\n subroutine s()\n  use q\n  print *, zed\n  print *, low\n  print *, VIS\n end subroutine s\nend module r\n"
+FORMS = [
+    # (files, file, line, col, expected (file, line) or None)
+    ({"a.f90": _A, "c.f90": "program c\n use a, only: lx => x\n use a, only: ly => y\n print *, lx, ly\nend program c\n"}, "c.f90", 3, 10, ("a.f90", 1)),
+    ({"a.f90": _A, "c.f90": "program c\n use a, only: lx => x\n use a, only: ly => y\n print *, lx, ly\nend program c\n"}, "c.f90", 3, 14, ("a.f90", 2)),
+    ({"a.f90": _A, "c.f90": "program c\n use a, only: ly => y\n use a, only: x\n print *, x, ly\nend program c\n"}, "c.f90", 3, 13, ("a.f90", 2)),
+    ({"a.f90": _A, "c.f90": "program c\n use a, only: ly => y\n use a, only: x\n print *, x, ly\nend program c\n"}, "c.f90", 3, 10, ("a.f90", 1)),
+    ({"q.f90": _Q, "r.f90": _R}, "r.f90", 5, 11, ("r.f90", 1)),   # PRIVATE :: zed names Zed: host zed is the one
+    ({"q.f90": _Q, "r.f90": _R}, "r.f90", 6, 11, ("r.f90", 1)),
+    ({"q.f90": _Q, "r.f90": _R}, "r.f90", 7, 11, ("q.f90", 5)),
+]
+
+
+def forms(k: int, order: int) -> bool:
+    """further USE-association forms: several renaming USE statements of one module (either order), PUBLIC/PRIVATE
+    statements spelled in another letter case than the declaration; files indexed in both orders
+    pre: 0 <= k < len(FORMS) and 0 <= order <= 1
+    post: _
+    """
+    tick("forms")
+    k, order = conc(k, 0, len(FORMS) - 1), conc(order, 0, 1)
+    with NoTracing():
+        files, fn, line, col, want = FORMS[k]
+        items = list(files.items())
+        if order:
+            items.reverse()
+        srv = ws.reset(SRV, {f"{R}/{n}": t for n, t in items})
+        r = ws.request(srv, "textDocument/definition", f"{R}/{fn}", line, col)
+        got = None if r[0] != "resp" or r[1] is None else (r[1]["uri"].split("/")[-1], r[1]["range"]["start"]["line"])
+        ok = got == want
+        if not ok:
+            FAIL.append(f"form {k}: definition at {fn}:{line}:{col} -> {got}, expected {want}\n" + dump({n: t for n, t in items}))
+    tock("forms")
+    return ok
